@@ -713,7 +713,12 @@ orc_x86_insn_output_asm (OrcCompiler *p, OrcX86Insn *xinsn)
     case ORC_X86_INSN_TYPE_REG16_REGM:
     case ORC_X86_INSN_TYPE_REG_REGM:
     case ORC_X86_INSN_TYPE_IMM8_MMX_REG_REV:
-      if (xinsn->type == ORC_X86_RM_REG) {
+      if (xinsn->type == ORC_X86_RM_REG &&
+          xinsn->opcode->type == ORC_X86_INSN_TYPE_REG_REGM) {
+        /* same operand size as the source register printed above */
+        sprintf(dst_op, "%%%s", orc_x86_get_regname_size (xinsn->dest,
+            xinsn->size));
+      } else if (xinsn->type == ORC_X86_RM_REG) {
         sprintf(dst_op, "%%%s", orc_x86_get_regname (xinsn->dest));
       } else if (xinsn->type == ORC_X86_RM_MEMOFFSET) {
         sprintf(dst_op, "%d(%%%s)", xinsn->offset,
